@@ -1,8 +1,8 @@
 (** Lemmas about composition tracking (C05): the algebra of [combine_composition], locality of
     [write_composition], the composition invariant, refinement of the ideal-mixing specification
     (Spec/Mixing.v) and conservation of component amounts. *)
-From Robo Require Import Prelude Str Wells Utils Labware Records Params Worklist Invariants Mixing
-  WellsProofs.
+From Robo Require Import Prelude Str Wells Utils Labware Tips Records Partition Params Worklist
+  Invariants Mixing WellsProofs.
 From Coq Require Import Lqa.
 #[local] Open Scope Q_scope.
 
@@ -317,17 +317,26 @@ Proof.
   destruct (String.eqb_spec a k0) as [E|N]; [subst; contradiction|apply orb_false_r].
 Qed.
 
-Lemma mixfold_keys vB cB : NoDup (map fst cB) -> forall acc,
-  map fst (mixfold vB cB acc) = (map fst acc ++ fresh_keys (map fst acc) (map fst cB))%list.
+Lemma fold_set_keys {A B} (F : list (string * A) -> string * B -> A) (c : list (string * B)) :
+  NoDup (map fst c) -> forall acc,
+  map fst (fold_left (fun acc kf => assoc_set (fst kf) (F acc kf) acc) c acc)
+  = (map fst acc ++ fresh_keys (map fst acc) (map fst c))%list.
 Proof.
-  induction cB as [|[k0 x0] r IH]; intros ND acc.
-  - unfold mixfold, fresh_keys. cbn [fold_left map filter]. rewrite app_nil_r. reflexivity.
+  induction c as [|[k0 x0] r IH]; intros ND acc.
+  - unfold fresh_keys. cbn [fold_left map filter]. rewrite app_nil_r. reflexivity.
   - cbn [map fst] in ND. inversion ND as [|k' r' Hnot ND']; subst.
-    rewrite mixfold_cons, (IH ND'). unfold mix_step. cbn [fst snd map].
+    cbn [fold_left]. rewrite (IH ND'). cbn [fst snd map].
     rewrite keys_assoc_set. unfold fresh_keys at 2. cbn [filter].
     destruct (mem_str k0 (map fst acc)) eqn:E; cbn [negb].
     + reflexivity.
     + rewrite fresh_keys_snoc by exact Hnot. rewrite <- app_assoc. reflexivity.
+Qed.
+
+Lemma mixfold_keys vB cB : NoDup (map fst cB) -> forall acc,
+  map fst (mixfold vB cB acc) = (map fst acc ++ fresh_keys (map fst acc) (map fst cB))%list.
+Proof.
+  intros ND acc. unfold mixfold, mix_step.
+  exact (fold_set_keys (fun acc kf => Qred (cget (fst kf) acc + snd kf * vB)) cB ND acc).
 Qed.
 
 Lemma mixfold_sum vB cB : forall acc,
@@ -462,4 +471,1408 @@ Lemma combine_self vA cA vB cB k : ~ vA + vB == 0 -> NoDup (map fst cB) ->
   cget k cB == cget k cA -> cget k (combine_composition vA cA vB cB) == cget k cA.
 Proof.
   intros Hs ND E. rewrite (combine_get vA cA vB cB k Hs ND), E. field. exact Hs.
+Qed.
+
+(* ------------------------------------------------------------------ set_frac, write_composition *)
+
+Definition arrays_len (n : nat) (comp : list (string * list Q)) : Prop :=
+  Forall (fun ka => length (snd ka) = n) comp.
+
+Definition arr_or_zero (n : nat) (comp : list (string * list Q)) (k : string) : list Q :=
+  match assoc_get k comp with Some a => a | None => repeat 0 n end.
+
+Lemma arrays_len_get n comp k a : arrays_len n comp -> assoc_get k comp = Some a -> length a = n.
+Proof.
+  intros H E. apply assoc_get_Some_In in E. unfold arrays_len in H. rewrite Forall_forall in H.
+  apply (H (k, a) E).
+Qed.
+
+Lemma arr_or_zero_len n comp k : arrays_len n comp -> length (arr_or_zero n comp k) = n.
+Proof.
+  intro H. unfold arr_or_zero. destruct (assoc_get k comp) as [a|] eqn:E.
+  - exact (arrays_len_get n comp k a H E).
+  - apply repeat_length.
+Qed.
+
+Lemma arr_or_zero_nth n comp k j : nth j (arr_or_zero n comp k) 0 = frac_at comp k j.
+Proof.
+  unfold arr_or_zero, frac_at. destruct (assoc_get k comp); [reflexivity|apply nth_repeat0].
+Qed.
+
+Lemma set_frac_unfold n comp k i x : set_frac n comp k i x = assoc_set k (upd (arr_or_zero n comp k) i x) comp.
+Proof. reflexivity. Qed.
+
+Lemma set_frac_frac n comp k i x k' j : arrays_len n comp -> (i < n)%nat ->
+  frac_at (set_frac n comp k i x) k' j
+  = if String.eqb k k' && (i =? j)%nat then x else frac_at comp k' j.
+Proof.
+  intros HL Hi. rewrite set_frac_unfold. unfold frac_at at 1.
+  destruct (String.eqb_spec k k') as [E|N]; cbn [andb].
+  - subst k'. rewrite assoc_get_set_same. destruct (Nat.eqb_spec i j) as [Ej|Nj].
+    + subst j. apply nth_upd_eq. rewrite arr_or_zero_len by exact HL. exact Hi.
+    + rewrite nth_upd_neq by exact Nj. apply arr_or_zero_nth.
+  - rewrite assoc_get_set_other by exact N. reflexivity.
+Qed.
+
+Lemma set_frac_len n comp k i x : arrays_len n comp -> arrays_len n (set_frac n comp k i x).
+Proof.
+  intro HL. rewrite set_frac_unfold. unfold arrays_len.
+  apply assoc_set_Forall'; [exact HL|]. intro k'. cbn [snd]. rewrite upd_len.
+  apply arr_or_zero_len. exact HL.
+Qed.
+
+Lemma NoDup_snoc {A} (l : list A) x : NoDup l -> ~ In x l -> NoDup (l ++ [x]).
+Proof.
+  intros ND Hx. induction ND as [|y r Hy ND IH]; cbn [app].
+  - constructor; [intros []|constructor].
+  - constructor.
+    + intro Hin. apply in_app_or in Hin. destruct Hin as [Hin|[E|[]]]; [contradiction|].
+      subst y. apply Hx. left. reflexivity.
+    + apply IH. intro Hin. apply Hx. right. exact Hin.
+Qed.
+
+Lemma assoc_set_NoDup {A} k (v : A) l : NoDup (map fst l) -> NoDup (map fst (assoc_set k v l)).
+Proof.
+  intro ND. rewrite keys_assoc_set. destruct (mem_str k (map fst l)) eqn:E; [exact ND|].
+  apply NoDup_snoc; [exact ND|]. apply mem_str_false. exact E.
+Qed.
+
+Lemma set_frac_NoDup n comp k i x : NoDup (map fst comp) -> NoDup (map fst (set_frac n comp k i x)).
+Proof. intro ND. rewrite set_frac_unfold. apply assoc_set_NoDup. exact ND. Qed.
+
+Definition wc_fold (n i : nat) (c : composition) (comp : list (string * list Q)) :=
+  fold_left (fun comp kf => set_frac n comp (fst kf) i (snd kf)) c comp.
+
+Lemma write_composition_comp L i c :
+  lw_comp (write_composition L i c) = wc_fold (n_wells (lw_geom L)) i c (lw_comp L).
+Proof. reflexivity. Qed.
+
+Lemma wc_fold_cons n i kf c comp :
+  wc_fold n i (kf :: c) comp = wc_fold n i c (set_frac n comp (fst kf) i (snd kf)).
+Proof. reflexivity. Qed.
+
+Lemma wc_fold_len n i c : forall comp, arrays_len n comp -> arrays_len n (wc_fold n i c comp).
+Proof.
+  induction c as [|kf r IH]; intros comp HL; [exact HL|].
+  rewrite wc_fold_cons. apply IH. apply set_frac_len. exact HL.
+Qed.
+
+Lemma wc_fold_NoDup n i c : forall comp, NoDup (map fst comp) -> NoDup (map fst (wc_fold n i c comp)).
+Proof.
+  induction c as [|kf r IH]; intros comp ND; [exact ND|].
+  rewrite wc_fold_cons. apply IH. apply set_frac_NoDup. exact ND.
+Qed.
+
+Lemma wc_fold_keys n i c : NoDup (map fst c) -> forall comp,
+  map fst (wc_fold n i c comp) = (map fst comp ++ fresh_keys (map fst comp) (map fst c))%list.
+Proof.
+  intros ND comp. unfold wc_fold, set_frac.
+  exact (fold_set_keys (fun comp kf => upd (match assoc_get (fst kf) comp with
+                                            | Some a => a | None => repeat 0 n end) i (snd kf))
+                       c ND comp).
+Qed.
+
+Lemma mem_str_cons k k0 l : mem_str k (k0 :: l) = String.eqb k k0 || mem_str k l.
+Proof. reflexivity. Qed.
+
+(** after the write, position [i] of every component named in [c] holds the value from [c];
+    everything else reads as before *)
+Lemma wc_fold_frac n i c : NoDup (map fst c) -> forall comp, arrays_len n comp -> (i < n)%nat ->
+  forall k j, frac_at (wc_fold n i c comp) k j
+              = if (i =? j)%nat && mem_str k (map fst c) then cget k c else frac_at comp k j.
+Proof.
+  induction c as [|[k0 x0] r IH]; intros ND comp HL Hi k j.
+  - cbn [wc_fold fold_left map mem_str existsb]. rewrite andb_false_r. reflexivity.
+  - cbn [map fst] in ND. inversion ND as [|k' r' Hnot ND']; subst.
+    rewrite wc_fold_cons. cbn [fst snd].
+    rewrite (IH ND') by (try apply set_frac_len; assumption).
+    rewrite set_frac_frac by assumption. cbn [map fst]. rewrite mem_str_cons, cget_cons.
+    rewrite (String.eqb_sym k k0).
+    destruct (String.eqb_spec k0 k) as [E|N]; cbn [andb orb].
+    + subst k0. apply mem_str_false in Hnot. rewrite Hnot, andb_false_r, andb_true_r.
+      destruct (i =? j)%nat; reflexivity.
+    + reflexivity.
+Qed.
+
+(** components not named in [c] keep their arrays *)
+Lemma wc_fold_other n i c k : ~ In k (map fst c) -> forall comp,
+  assoc_get k (wc_fold n i c comp) = assoc_get k comp.
+Proof.
+  induction c as [|[k0 x0] r IH]; intros Hnot comp; [reflexivity|].
+  rewrite wc_fold_cons. cbn [fst snd map] in *.
+  rewrite IH by (intro H; apply Hnot; right; exact H).
+  rewrite set_frac_unfold. apply assoc_get_set_other. intro E. apply Hnot. left. exact E.
+Qed.
+
+(** every existing array keeps its length and all positions other than [i] *)
+Lemma wc_fold_arrays n i c : forall comp k a, assoc_get k comp = Some a ->
+  exists a', assoc_get k (wc_fold n i c comp) = Some a' /\ length a' = length a /\
+             forall j d, j <> i -> nth j a' d = nth j a d.
+Proof.
+  induction c as [|[k0 x0] r IH]; intros comp k a E.
+  - exists a. split; [exact E|]. split; [reflexivity|]. intros; reflexivity.
+  - rewrite wc_fold_cons. cbn [fst snd]. rewrite set_frac_unfold.
+    destruct (String.eqb_spec k0 k) as [Ek|Nk].
+    + subst k0.
+      destruct (IH (assoc_set k (upd (arr_or_zero n comp k) i x0) comp) k
+                   (upd (arr_or_zero n comp k) i x0) (assoc_get_set_same _ _ _))
+        as [a' [E' [L' H']]].
+      exists a'. split; [exact E'|]. unfold arr_or_zero in L', H'. rewrite E in L', H'.
+      rewrite upd_len in L'. split; [exact L'|]. intros j d Hj.
+      rewrite H' by exact Hj. apply nth_upd_neq. congruence.
+    + apply IH. rewrite assoc_get_set_other by exact Nk. exact E.
+Qed.
+
+(** new components start as all-zero arrays of the right length *)
+Lemma wc_fold_new n i c : NoDup (map fst c) -> forall comp k, arrays_len n comp -> (i < n)%nat ->
+  assoc_get k comp = None -> In k (map fst c) ->
+  exists a', assoc_get k (wc_fold n i c comp) = Some a' /\ length a' = n /\
+             nth i a' 0 = cget k c /\ forall j, j <> i -> nth j a' 0 = 0.
+Proof.
+  intros ND comp k HL Hi E Hin.
+  destruct (assoc_get_In_key k (wc_fold n i c comp)) as [a' E'].
+  { rewrite (wc_fold_keys n i c ND). apply in_or_app. right. apply fresh_keys_In.
+    split; [exact Hin|]. apply assoc_get_None. exact E. }
+  exists a'. split; [exact E'|].
+  split; [exact (arrays_len_get n _ k a' (wc_fold_len n i c comp HL) E')|].
+  pose proof (wc_fold_frac n i c ND comp HL Hi k) as HF. unfold frac_at in HF.
+  rewrite E', E in HF. split.
+  - rewrite HF, Nat.eqb_refl. apply mem_str_true in Hin. rewrite Hin. reflexivity.
+  - intros j Hj. rewrite HF. destruct (Nat.eqb_spec i j) as [Ej|_]; [congruence|reflexivity].
+Qed.
+
+Lemma upd_nth_id {A} (l : list A) d : forall i, upd l i (nth i l d) = l.
+Proof.
+  induction l as [|y r IH]; intro i; [destruct i; reflexivity|].
+  destruct i as [|j]; cbn [upd nth]; [reflexivity|]. rewrite IH. reflexivity.
+Qed.
+
+Lemma assoc_set_id {A} k (v : A) l : assoc_get k l = Some v -> assoc_set k v l = l.
+Proof.
+  induction l as [|[k' v'] r IH]; cbn [assoc_get assoc_set]; [discriminate|].
+  destruct (String.eqb k' k); intro H; [inversion H; reflexivity|]. rewrite IH by exact H. reflexivity.
+Qed.
+
+(** writing back the values that are already there changes nothing *)
+Lemma wc_fold_id n i c comp :
+  (forall k x, In (k, x) c -> exists a, assoc_get k comp = Some a /\ nth i a 0 = x) ->
+  wc_fold n i c comp = comp.
+Proof.
+  induction c as [|[k0 x0] r IH]; intro H; [reflexivity|].
+  rewrite wc_fold_cons. cbn [fst snd].
+  destruct (H k0 x0 (or_introl eq_refl)) as [a [E Hx]].
+  assert (Hs : set_frac n comp k0 i x0 = comp).
+  { unfold set_frac. rewrite E. rewrite <- Hx, upd_nth_id. apply assoc_set_id. exact E. }
+  rewrite Hs. apply IH. intros k x Hin. apply H. right. exact Hin.
+Qed.
+
+Lemma write_composition_fields L i c :
+  lw_name (write_composition L i c) = lw_name L /\ lw_geom (write_composition L i c) = lw_geom L /\
+  lw_min (write_composition L i c) = lw_min L /\ lw_max (write_composition L i c) = lw_max L /\
+  lw_vols (write_composition L i c) = lw_vols L /\ lw_hist (write_composition L i c) = lw_hist L.
+Proof. repeat split. Qed.
+
+(* ------------------------------------------------------------------ well_composition_at *)
+
+Definition wca (comp : list (string * list Q)) (i : nat) : composition :=
+  flat_map (fun kf => let f := nth i (snd kf) 0 in if Qltb 0 f then [(fst kf, f)] else []) comp.
+
+Lemma well_composition_at_wca L i : well_composition_at L i = wca (lw_comp L) i.
+Proof. reflexivity. Qed.
+
+Lemma wca_cons k a r i :
+  wca ((k, a) :: r) i = ((if Qltb 0 (nth i a 0) then [(k, nth i a 0)] else []) ++ wca r i)%list.
+Proof. reflexivity. Qed.
+
+Lemma wca_keys_sub comp i k : In k (map fst (wca comp i)) -> In k (map fst comp).
+Proof.
+  induction comp as [|[k0 a0] r IH]; [intros []|].
+  rewrite wca_cons. cbn [map fst]. destruct (Qltb 0 (nth i a0 0)); cbn [app map fst In]; tauto.
+Qed.
+
+Lemma wca_NoDup comp i : NoDup (map fst comp) -> NoDup (map fst (wca comp i)).
+Proof.
+  induction comp as [|[k0 a0] r IH]; intro ND; [constructor|].
+  cbn [map fst] in ND. inversion ND as [|k' r' Hnot ND']; subst.
+  rewrite wca_cons. destruct (Qltb 0 (nth i a0 0)); cbn [app map fst]; [|apply IH; exact ND'].
+  constructor; [|apply IH; exact ND']. intro Hin. apply Hnot. exact (wca_keys_sub r i k0 Hin).
+Qed.
+
+Lemma frac_at_cons k0 a0 r k i :
+  frac_at ((k0, a0) :: r) k i = if String.eqb k0 k then nth i a0 0 else frac_at r k i.
+Proof. unfold frac_at. cbn [assoc_get]. destruct (String.eqb k0 k); reflexivity. Qed.
+
+Lemma frac_at_notin comp k i : ~ In k (map fst comp) -> frac_at comp k i = 0.
+Proof. intro H. unfold frac_at. apply assoc_get_None in H. rewrite H. reflexivity. Qed.
+
+(** what [get_well_composition] reports for a component: its fraction if positive, else nothing *)
+Lemma wca_get comp i k : NoDup (map fst comp) ->
+  cget k (wca comp i) = if Qltb 0 (frac_at comp k i) then frac_at comp k i else 0.
+Proof.
+  induction comp as [|[k0 a0] r IH]; intro ND.
+  - unfold frac_at, cget. cbn [wca flat_map assoc_get]. destruct (Qltb 0 0); reflexivity.
+  - cbn [map fst] in ND. inversion ND as [|k' r' Hnot ND']; subst.
+    rewrite wca_cons, frac_at_cons. destruct (String.eqb_spec k0 k) as [E|N].
+    + subst k0. destruct (Qltb 0 (nth i a0 0)) eqn:Ef; cbn [app].
+      * rewrite cget_cons, String.eqb_refl. reflexivity.
+      * apply cget_notin. intro Hin. apply Hnot. exact (wca_keys_sub r i k Hin).
+    + destruct (Qltb 0 (nth i a0 0)); cbn [app]; [rewrite cget_cons|];
+        try (destruct (String.eqb_spec k0 k) as [E|_]; [contradiction|]); apply IH; exact ND'.
+Qed.
+
+Lemma wca_In comp i k x : In (k, x) (wca comp i) -> exists a, In (k, a) comp /\ nth i a 0 = x /\ 0 < x.
+Proof.
+  induction comp as [|[k0 a0] r IH]; [intros []|].
+  rewrite wca_cons. intro Hin. apply in_app_or in Hin. destruct Hin as [Hin|Hin].
+  - destruct (Qltb 0 (nth i a0 0)) eqn:Ef; [|destruct Hin]. destruct Hin as [E|[]].
+    inversion E; subst. exists a0. split; [left; reflexivity|]. split; [reflexivity|].
+    apply Qltb_true'. exact Ef.
+  - destruct (IH Hin) as [a [Ha Hx]]. exists a. split; [right; exact Ha|exact Hx].
+Qed.
+
+(** entries that are not positive are zero: then the reported fractions sum to the column sum *)
+Lemma wca_sum comp i : (forall ka, In ka comp -> 0 <= nth i (snd ka) 0) ->
+  Qsum (map snd (wca comp i)) == col_sum comp i.
+Proof.
+  unfold col_sum. induction comp as [|[k0 a0] r IH]; intro H; [reflexivity|].
+  rewrite wca_cons, map_app, Qsum_app'. cbn [map snd]. rewrite Qsum_cons.
+  rewrite IH by (intros ka Hka; apply H; right; exact Hka).
+  apply Qplus_comp; [|reflexivity].
+  destruct (Qltb 0 (nth i a0 0)) eqn:Ef.
+  - cbn [map snd]. rewrite Qsum_cons. unfold Qsum. cbn [fold_right]. ring.
+  - apply Qltb_false' in Ef. pose proof (H (k0, a0) (or_introl eq_refl)) as H0. cbn [snd] in H0.
+    unfold Qsum. cbn [map fold_right]. lra.
+Qed.
+
+(* ------------------------------------------------------------------ one element of add_loop / remove_loop *)
+
+Definition add_step (L : labware) (i : nat) (v : Q) (oc : option composition) : labware :=
+  let v0 := vol_at L i in
+  let L1 := set_vols L (upd (lw_vols L) i (Qred (v0 + v))) in
+  match oc with
+  | Some c => write_composition L1 i (combine_composition v0 (well_composition_at L1 i) v c)
+  | None => L1
+  end.
+
+Definition rem_step (L : labware) (i : nat) (v : Q) : labware :=
+  set_vols L (upd (lw_vols L) i (Qred (vol_at L i - v))).
+
+Lemma add_loop_cons' L w x oc rest :
+  add_loop L ((w, x, oc) :: rest) =
+  match lw_index L w with
+  | None => (L, Some EReject)
+  | Some i => match x with
+              | XQ v => if Qgtb (Qred (vol_at L i + v)) (lw_max L) then (L, Some EOverflow)
+                        else add_loop (add_step L i v oc) rest
+              | _ => (L, Some EOverflow)
+              end
+  end.
+Proof. reflexivity. Qed.
+
+Lemma remove_loop_cons' L w x rest :
+  remove_loop L ((w, x) :: rest) =
+  match lw_index L w with
+  | None => (L, Some EReject)
+  | Some i => match x with
+              | XQ v => if Qltb (Qred (vol_at L i - v)) (lw_min L) then (L, Some EUnderflow)
+                        else remove_loop (rem_step L i v) rest
+              | _ => (L, Some EUnderflow)
+              end
+  end.
+Proof. reflexivity. Qed.
+
+(** the composition the mixing step writes into well [i] *)
+Definition mixed (L : labware) (i : nat) (v : Q) (c : composition) : composition :=
+  combine_composition (vol_at L i) (wca (lw_comp L) i) v c.
+
+Lemma add_step_comp_some L i v c :
+  lw_comp (add_step L i v (Some c)) = wc_fold (n_wells (lw_geom L)) i (mixed L i v c) (lw_comp L).
+Proof. reflexivity. Qed.
+Lemma add_step_comp_none L i v : lw_comp (add_step L i v None) = lw_comp L.
+Proof. reflexivity. Qed.
+
+Lemma add_step_fields L i v oc :
+  lw_name (add_step L i v oc) = lw_name L /\ lw_geom (add_step L i v oc) = lw_geom L /\
+  lw_min (add_step L i v oc) = lw_min L /\ lw_max (add_step L i v oc) = lw_max L /\
+  lw_vols (add_step L i v oc) = upd (lw_vols L) i (Qred (vol_at L i + v)) /\
+  lw_hist (add_step L i v oc) = lw_hist L.
+Proof. destruct oc as [c|]; repeat split. Qed.
+
+Lemma rem_step_fields L i v :
+  lw_name (rem_step L i v) = lw_name L /\ lw_geom (rem_step L i v) = lw_geom L /\
+  lw_min (rem_step L i v) = lw_min L /\ lw_max (rem_step L i v) = lw_max L /\
+  lw_vols (rem_step L i v) = upd (lw_vols L) i (Qred (vol_at L i - v)) /\
+  lw_comp (rem_step L i v) = lw_comp L /\ lw_hist (rem_step L i v) = lw_hist L.
+Proof. repeat split. Qed.
+
+Lemma lw_index_geom' L1 L2 w : lw_geom L1 = lw_geom L2 -> lw_index L1 w = lw_index L2 w.
+Proof. intro H. unfold lw_index. rewrite H. reflexivity. Qed.
+
+Lemma vol_at_add_step L i v oc j : (i < length (lw_vols L))%nat ->
+  vol_at (add_step L i v oc) j = if (i =? j)%nat then Qred (vol_at L i + v) else vol_at L j.
+Proof.
+  intro Hi. unfold vol_at at 1.
+  destruct (add_step_fields L i v oc) as (_ & _ & _ & _ & Hv & _). rewrite Hv.
+  destruct (Nat.eqb_spec i j) as [E|N].
+  - subst j. apply nth_upd_eq. exact Hi.
+  - apply nth_upd_neq. exact N.
+Qed.
+
+Lemma vol_at_rem_step L i v j : (i < length (lw_vols L))%nat ->
+  vol_at (rem_step L i v) j = if (i =? j)%nat then Qred (vol_at L i - v) else vol_at L j.
+Proof.
+  intro Hi. unfold vol_at at 1. cbn [rem_step set_vols lw_vols].
+  destruct (Nat.eqb_spec i j) as [E|N].
+  - subst j. apply nth_upd_eq. exact Hi.
+  - apply nth_upd_neq. exact N.
+Qed.
+
+Lemma mixed_NoDup L i v c : NoDup (map fst (lw_comp L)) -> NoDup (map fst c) ->
+  NoDup (map fst (mixed L i v c)).
+Proof. intros N1 N2. apply combine_NoDup; [apply wca_NoDup; exact N1|exact N2]. Qed.
+
+(** C05_add_step: wells other than the addressed one keep all fractions *)
+Lemma add_step_frac_other L i v oc k j :
+  arrays_len (n_wells (lw_geom L)) (lw_comp L) -> (i < n_wells (lw_geom L))%nat ->
+  NoDup (map fst (lw_comp L)) ->
+  (match oc with Some c => NoDup (map fst c) | None => True end) ->
+  j <> i -> frac (add_step L i v oc) k j = frac L k j.
+Proof.
+  intros HL Hi ND NC Hj. destruct oc as [c|]; [|reflexivity].
+  unfold frac. rewrite add_step_comp_some.
+  rewrite wc_fold_frac; try assumption; [|apply mixed_NoDup; assumption].
+  destruct (Nat.eqb_spec i j) as [E|_]; [congruence|reflexivity].
+Qed.
+
+(** the reading of [get_well_composition] is the stored fraction as soon as that is not negative *)
+Lemma pfrac_nonneg L k i : 0 <= frac L k i -> pfrac L k i == frac L k i.
+Proof.
+  intro H. unfold pfrac. destruct (Qltb 0 (frac L k i)) eqn:E; [reflexivity|].
+  apply Qltb_false' in E. lra.
+Qed.
+
+Lemma wca_get_pfrac L k i : NoDup (map fst (lw_comp L)) -> cget k (wca (lw_comp L) i) = pfrac L k i.
+Proof. intro ND. rewrite wca_get by exact ND. reflexivity. Qed.
+
+(** C05_add_step: the addressed well holds the volume-weighted mixture *)
+Lemma add_step_frac_same_p L i v c k :
+  arrays_len (n_wells (lw_geom L)) (lw_comp L) -> (i < n_wells (lw_geom L))%nat ->
+  NoDup (map fst (lw_comp L)) -> NoDup (map fst c) ->
+  ~ vol_at L i + v == 0 ->
+  (0 < frac L k i \/ In k (map fst c)) ->
+  frac (add_step L i v (Some c)) k i
+  == (vol_at L i * pfrac L k i + v * cget k c) / (vol_at L i + v).
+Proof.
+  intros HL Hi ND NC Hs Hk. unfold frac at 1. rewrite add_step_comp_some.
+  rewrite wc_fold_frac; try assumption; [|apply mixed_NoDup; assumption].
+  rewrite Nat.eqb_refl. cbn [andb].
+  assert (Hmem : mem_str k (map fst (mixed L i v c)) = true).
+  { apply mem_str_true. unfold mixed. rewrite combine_keys by assumption.
+    destruct (in_dec string_dec k (map fst (wca (lw_comp L) i))) as [Hin|Hnin].
+    - apply in_or_app. left. exact Hin.
+    - apply in_or_app. right. apply fresh_keys_In. split; [|exact Hnin].
+      destruct Hk as [Hpos|Hc]; [|exact Hc]. exfalso.
+      assert (E : cget k (wca (lw_comp L) i) = 0) by (apply cget_notin; exact Hnin).
+      rewrite wca_get in E by exact ND. fold (frac L k i) in E.
+      destruct (Qltb 0 (frac L k i)) eqn:Ef.
+      + rewrite E in Hpos. lra.
+      + apply Qltb_false' in Ef. lra. }
+  rewrite Hmem. unfold mixed. rewrite combine_get by assumption.
+  rewrite wca_get_pfrac by exact ND. reflexivity.
+Qed.
+
+Lemma add_step_frac_same L i v c k :
+  arrays_len (n_wells (lw_geom L)) (lw_comp L) -> (i < n_wells (lw_geom L))%nat ->
+  NoDup (map fst (lw_comp L)) -> NoDup (map fst c) ->
+  ~ vol_at L i + v == 0 ->
+  0 <= frac L k i ->
+  frac (add_step L i v (Some c)) k i
+  == (vol_at L i * frac L k i + v * cget k c) / (vol_at L i + v).
+Proof.
+  intros HL Hi ND NC Hs Hk.
+  destruct (Qlt_le_dec 0 (frac L k i)) as [Hpos|Hle].
+  - rewrite add_step_frac_same_p by (try assumption; left; exact Hpos).
+    rewrite pfrac_nonneg by exact Hk. reflexivity.
+  - assert (Hz : frac L k i == 0) by lra.
+    destruct (in_dec string_dec k (map fst c)) as [Hin|Hnin].
+    + rewrite add_step_frac_same_p by (try assumption; right; exact Hin).
+      rewrite pfrac_nonneg by exact Hk. reflexivity.
+    + (* the component is neither present in the well nor in the added liquid: not written *)
+      unfold frac at 1. rewrite add_step_comp_some.
+      rewrite wc_fold_frac; try assumption; [|apply mixed_NoDup; assumption].
+      assert (Hmem : mem_str k (map fst (mixed L i v c)) = false).
+      { apply mem_str_false. unfold mixed. rewrite combine_keys by assumption. intro Hin.
+        apply in_app_or in Hin. destruct Hin as [Hin|Hin].
+        - change (In k (map fst (wca (lw_comp L) i))) in Hin.
+          apply in_map_iff in Hin. destruct Hin as [[k' x] [Ek Hin]]. cbn [fst] in Ek. subst k'.
+          pose proof (cget_In k x _ (wca_NoDup _ i ND) Hin) as Eg.
+          destruct (wca_In _ _ _ _ Hin) as [a [_ [_ Hx]]].
+          rewrite wca_get in Eg by exact ND. fold (frac L k i) in Eg.
+          destruct (Qltb 0 (frac L k i)) eqn:Ef.
+          + apply Qltb_true' in Ef. lra.
+          + rewrite <- Eg in Hx. lra.
+        - apply fresh_keys_In in Hin. tauto. }
+      rewrite Hmem, andb_false_r. fold (frac L k i).
+      rewrite (cget_notin k c Hnin), Hz. field. exact Hs.
+Qed.
+
+(** C05_add_step: a zero total volume leaves the table as it is *)
+Lemma add_step_guard L i v c : NoDup (map fst (lw_comp L)) -> vol_at L i + v == 0 ->
+  lw_comp (add_step L i v (Some c)) = lw_comp L.
+Proof.
+  intros ND Hz. rewrite add_step_comp_some. unfold mixed. rewrite combine_zero by exact Hz.
+  apply wc_fold_id. intros k x Hin. destruct (wca_In _ _ _ _ Hin) as [a [Ha [Hx _]]].
+  exists a. split; [|exact Hx]. apply assoc_get_NoDup; assumption.
+Qed.
+
+(* ------------------------------------------------------------------ column view, column sums *)
+
+Definition col (comp : list (string * list Q)) (i : nat) : composition :=
+  map (fun ka => (fst ka, nth i (snd ka) 0)) comp.
+
+Lemma col_keys comp i : map fst (col comp i) = map fst comp.
+Proof. unfold col. rewrite map_map. reflexivity. Qed.
+Lemma col_sum_col comp i : col_sum comp i = Qsum (map snd (col comp i)).
+Proof. unfold col_sum, col. rewrite map_map. reflexivity. Qed.
+Lemma col_get comp i k : cget k (col comp i) = frac_at comp k i.
+Proof.
+  induction comp as [|[k0 a0] r IH]; [reflexivity|].
+  unfold col. cbn [map fst snd]. fold (col r i). rewrite cget_cons, frac_at_cons, IH. reflexivity.
+Qed.
+
+Lemma col_sum_keys comp i K : NoDup (map fst comp) -> NoDup K ->
+  (forall k, In k (map fst comp) -> In k K) ->
+  Qsum (map (fun k => frac_at comp k i) K) == col_sum comp i.
+Proof.
+  intros ND NK Hsub. rewrite col_sum_col.
+  rewrite <- (Qsum_cget_superset (col comp i)) with (K := K);
+    try (rewrite col_keys); try assumption.
+  apply Qsum_map_ext. intros k _. rewrite col_get. reflexivity.
+Qed.
+
+(** column sum of a well that the write does not address *)
+Lemma col_sum_set_frac n comp k i x j : arrays_len n comp -> (i < n)%nat ->
+  col_sum (set_frac n comp k i x) j
+  == col_sum comp j - frac_at comp k j + (if (i =? j)%nat then x else frac_at comp k j).
+Proof.
+  intros HL Hi. rewrite set_frac_unfold.
+  assert (Hset : forall (a' : list Q) (l : list (string * list Q)),
+             col_sum (assoc_set k a' l) j == col_sum l j - frac_at l k j + nth j a' 0).
+  { intros a' l. unfold col_sum. induction l as [|[k' v'] r IHl]; cbn [assoc_set map snd].
+    - unfold frac_at. cbn [assoc_get]. rewrite Qsum_cons. ring.
+    - rewrite frac_at_cons. destruct (String.eqb k' k); cbn [map snd]; rewrite !Qsum_cons.
+      + ring.
+      + rewrite IHl. ring. }
+  rewrite Hset. apply Qplus_comp; [reflexivity|].
+  destruct (Nat.eqb_spec i j) as [E|N].
+  - subst j. rewrite nth_upd_eq by (rewrite arr_or_zero_len by exact HL; exact Hi). reflexivity.
+  - rewrite nth_upd_neq by exact N. rewrite arr_or_zero_nth. reflexivity.
+Qed.
+
+Lemma wc_fold_col_sum_other n i c j : j <> i -> forall comp, arrays_len n comp -> (i < n)%nat ->
+  col_sum (wc_fold n i c comp) j == col_sum comp j.
+Proof.
+  intro Hj. induction c as [|[k0 x0] r IH]; intros comp HL Hi; [reflexivity|].
+  rewrite wc_fold_cons. cbn [fst snd]. rewrite IH by (try apply set_frac_len; assumption).
+  rewrite col_sum_set_frac by assumption.
+  destruct (Nat.eqb_spec i j) as [E|_]; [congruence|ring].
+Qed.
+
+(** C05_invariant, the key step: the fractions of the addressed well sum to the weighted mean *)
+Lemma add_step_well_sum L i v c :
+  arrays_len (n_wells (lw_geom L)) (lw_comp L) -> (i < n_wells (lw_geom L))%nat ->
+  NoDup (map fst (lw_comp L)) -> NoDup (map fst c) ->
+  ~ vol_at L i + v == 0 ->
+  (forall k, 0 <= frac L k i) ->
+  well_sum (add_step L i v (Some c)) i
+  == (vol_at L i * well_sum L i + v * Qsum (map snd c)) / (vol_at L i + v).
+Proof.
+  intros HL Hi ND NC Hs Hnn. unfold well_sum.
+  set (L' := add_step L i v (Some c)).
+  assert (ND' : NoDup (map fst (lw_comp L'))).
+  { unfold L'. rewrite add_step_comp_some. apply wc_fold_NoDup. exact ND. }
+  assert (Hsub1 : forall k, In k (map fst (lw_comp L)) -> In k (map fst (lw_comp L'))).
+  { intros k Hk. unfold L'. rewrite add_step_comp_some.
+    rewrite wc_fold_keys by (apply mixed_NoDup; assumption). apply in_or_app. left. exact Hk. }
+  assert (Hsub2 : forall k, In k (map fst c) -> In k (map fst (lw_comp L'))).
+  { intros k Hk. unfold L'. rewrite add_step_comp_some.
+    rewrite wc_fold_keys by (apply mixed_NoDup; assumption).
+    destruct (in_dec string_dec k (map fst (lw_comp L))) as [Hin|Hnin]; apply in_or_app.
+    - left. exact Hin.
+    - right. apply fresh_keys_In. split; [|exact Hnin].
+      unfold mixed. rewrite combine_keys by assumption.
+      destruct (in_dec string_dec k (map fst (wca (lw_comp L) i))) as [Hw|Hw]; apply in_or_app.
+      + left. exact Hw.
+      + right. apply fresh_keys_In. split; assumption. }
+  rewrite <- (col_sum_keys (lw_comp L') i (map fst (lw_comp L'))) by (try assumption; auto).
+  rewrite (Qsum_map_ext (fun k => frac_at (lw_comp L') k i)
+             (fun k => (vol_at L i / (vol_at L i + v)) * frac_at (lw_comp L) k i
+                       + (v / (vol_at L i + v)) * cget k c)).
+  2:{ intros k _. change (frac_at (lw_comp L') k i) with (frac (add_step L i v (Some c)) k i).
+      rewrite add_step_frac_same by (try assumption; apply Hnn).
+      unfold frac. field. exact Hs. }
+  rewrite Qsum_map_lin.
+  rewrite (col_sum_keys (lw_comp L) i) by assumption.
+  rewrite (Qsum_cget_superset c NC) by assumption.
+  field. exact Hs.
+Qed.
+
+(* ------------------------------------------------------------------ the invariant: one step *)
+
+Definition in01 (f : Q) : Prop := 0 <= f /\ f <= 1.
+Definition frac_bounds (comp : list (string * list Q)) : Prop :=
+  Forall (fun ka => Forall (fun f => 0 <= f /\ f <= 1) (snd ka)) comp.
+
+Lemma frac_bounds_frac comp k i : frac_bounds comp -> 0 <= frac_at comp k i /\ frac_at comp k i <= 1.
+Proof.
+  intro HB. unfold frac_at. destruct (assoc_get k comp) as [a|] eqn:E; [|lra].
+  apply assoc_get_Some_In in E. unfold frac_bounds in HB. rewrite Forall_forall in HB.
+  pose proof (HB (k, a) E) as Ha. cbn [snd] in Ha.
+  apply (Forall_nth' (fun f => 0 <= f /\ f <= 1)); [exact Ha|lra].
+Qed.
+
+Lemma comp_inv_frac L k i : comp_inv L -> 0 <= frac L k i /\ frac L k i <= 1.
+Proof. intros (_ & _ & HB & _). apply frac_bounds_frac. exact HB. Qed.
+
+Lemma wca_bounds comp i : frac_bounds comp -> Forall (fun kf => 0 <= snd kf /\ snd kf <= 1) (wca comp i).
+Proof.
+  intro HB. apply Forall_forall. intros [k x] Hin. cbn [snd].
+  destruct (wca_In _ _ _ _ Hin) as [a [Ha [Hx _]]]. subst x.
+  unfold frac_bounds in HB. rewrite Forall_forall in HB. pose proof (HB (k, a) Ha) as Hb. cbn [snd] in Hb.
+  apply (Forall_nth' (fun f => 0 <= f /\ f <= 1)); [exact Hb|lra].
+Qed.
+
+Lemma set_frac_bounds n comp k i x : frac_bounds comp -> 0 <= x /\ x <= 1 ->
+  frac_bounds (set_frac n comp k i x).
+Proof.
+  intros HB Hx. rewrite set_frac_unfold. unfold frac_bounds.
+  apply assoc_set_Forall'; [exact HB|]. intro k'. cbn [snd].
+  apply Forall_upd'; [|exact Hx]. unfold arr_or_zero.
+  destruct (assoc_get k comp) as [a|] eqn:E.
+  - apply assoc_get_Some_In in E. unfold frac_bounds in HB. rewrite Forall_forall in HB.
+    exact (HB (k, a) E).
+  - apply Forall_forall. intros y Hy. apply repeat_spec in Hy. subst y. lra.
+Qed.
+
+Lemma wc_fold_bounds n i c : Forall (fun kf => 0 <= snd kf /\ snd kf <= 1) c ->
+  forall comp, frac_bounds comp -> frac_bounds (wc_fold n i c comp).
+Proof.
+  induction 1 as [|kf r Hkf Hr IH]; intros comp HB; [exact HB|].
+  rewrite wc_fold_cons. apply IH. apply set_frac_bounds; assumption.
+Qed.
+
+Lemma vol_base_vol_at L i : vol_base L -> 0 <= vol_at L i.
+Proof.
+  intros (_ & _ & _ & HV). unfold vol_at. apply (Forall_nth' (fun v => 0 <= v)); [exact HV|lra].
+Qed.
+
+Lemma mixed_bounds L i v c : frac_bounds (lw_comp L) -> NoDup (map fst (lw_comp L)) ->
+  0 <= vol_at L i -> 0 <= v -> NoDup (map fst c) ->
+  Forall (fun kf => 0 <= snd kf /\ snd kf <= 1) c ->
+  Forall (fun kf => 0 <= snd kf /\ snd kf <= 1) (mixed L i v c).
+Proof.
+  intros HB ND H0 Hv NC HC. unfold mixed.
+  destruct (Qeq_dec (vol_at L i + v) 0) as [Hz|Hnz].
+  - rewrite combine_zero by exact Hz. apply wca_bounds. exact HB.
+  - apply combine_Forall_bounds; try assumption; try lra.
+    + apply wca_NoDup. exact ND.
+    + apply wca_bounds. exact HB.
+Qed.
+
+(** membership of the flat index *)
+Lemma lw_index_lt L w i : wf_geom (lw_geom L) -> lw_index L w = Some i -> (i < n_wells (lw_geom L))%nat.
+Proof.
+  intros (Hr & Hc & Hv) H. unfold lw_index in H.
+  destruct (well_index (lw_geom L) w) as [rc|] eqn:E; [|discriminate]. inversion H; subst i. clear H.
+  destruct (well_index_domain _ _ _ E) as (r & c & Hr' & Hc' & _ & Hrc). subst rc.
+  unfold flat_index, n_wells. cbn [fst snd]. unfold n_row_ids in Hr'.
+  destruct (g_vrows (lw_geom L)) as [vr|].
+  - destruct Hv as [H1 _]. rewrite H1. lia.
+  - assert (r < g_rows (lw_geom L))%nat by lia. nia.
+Qed.
+
+Lemma well_sum_add_step_other L i v oc j :
+  arrays_len (n_wells (lw_geom L)) (lw_comp L) -> (i < n_wells (lw_geom L))%nat ->
+  j <> i -> well_sum (add_step L i v oc) j == well_sum L j.
+Proof.
+  intros HL Hi Hj. destruct oc as [c|]; [|reflexivity].
+  unfold well_sum. rewrite add_step_comp_some. apply wc_fold_col_sum_other; assumption.
+Qed.
+
+Lemma add_step_geom L i v oc : lw_geom (add_step L i v oc) = lw_geom L.
+Proof. destruct oc; reflexivity. Qed.
+
+Lemma add_step_vol_base L i v oc : vol_base L -> 0 <= v -> vol_base (add_step L i v oc).
+Proof.
+  intros HVB Hv. pose proof (vol_base_vol_at L i HVB) as H0.
+  destruct HVB as (Hg & Hlen & Hmin & HV).
+  destruct (add_step_fields L i v oc) as (_ & Eg & Em & _ & Ev & _).
+  unfold vol_base. rewrite Eg, Em, Ev. split; [exact Hg|]. split; [rewrite upd_len; exact Hlen|].
+  split; [exact Hmin|]. apply Forall_upd'; [exact HV|]. rewrite Qred_correct. lra.
+Qed.
+
+Lemma add_step_comp_inv L i v oc : mix_inv L -> (i < n_wells (lw_geom L))%nat -> 0 <= v ->
+  ocomp_ok oc -> comp_inv (add_step L i v oc).
+Proof.
+  intros [HVB HCI] Hi Hv Hoc. pose proof (vol_base_vol_at L i HVB) as H0.
+  pose proof HCI as (HL & ND & HB & HS).
+  destruct oc as [c|]; [|exact HCI]. destruct Hoc as (NC & HC & HCs).
+  unfold comp_inv. rewrite add_step_geom.
+  split; [|split; [|split]].
+  - rewrite add_step_comp_some. apply wc_fold_len. exact HL.
+  - rewrite add_step_comp_some. apply wc_fold_NoDup. exact ND.
+  - rewrite add_step_comp_some. apply wc_fold_bounds; [|exact HB]. apply mixed_bounds; assumption.
+  - intros j Hj. destruct (Nat.eq_dec j i) as [E|N].
+    + subst j. destruct (Qeq_dec (vol_at L i + v) 0) as [Hz|Hnz].
+      * unfold well_sum. rewrite add_step_guard by assumption. apply HS. exact Hi.
+      * rewrite add_step_well_sum; try assumption.
+        -- apply mix_formula_le; try assumption; try lra. apply HS. exact Hi.
+        -- intro k. apply (comp_inv_frac L k i HCI).
+    + rewrite well_sum_add_step_other by assumption. apply HS. exact Hj.
+Qed.
+
+Lemma add_step_inv L i v oc : mix_inv L -> (i < n_wells (lw_geom L))%nat -> 0 <= v ->
+  ocomp_ok oc -> mix_inv (add_step L i v oc).
+Proof.
+  intros HI Hi Hv Hoc. split.
+  - apply add_step_vol_base; [exact (proj1 HI)|exact Hv].
+  - apply add_step_comp_inv; assumption.
+Qed.
+
+(** fully-known wells stay fully known when the added liquid is fully known *)
+Lemma add_step_known L i v c : mix_inv L -> (i < n_wells (lw_geom L))%nat -> 0 <= v ->
+  NoDup (map fst c) -> comp_full c -> fully_known L i -> fully_known (add_step L i v (Some c)) i.
+Proof.
+  intros [HVB HCI] Hi Hv NC HF HK. pose proof (vol_base_vol_at L i HVB) as H0.
+  pose proof HCI as (HL & ND & HB & HS). unfold fully_known in *.
+  destruct (Qeq_dec (vol_at L i + v) 0) as [Hz|Hnz].
+  - unfold well_sum. rewrite add_step_guard by assumption. exact HK.
+  - rewrite add_step_well_sum; try assumption; [|intro k; apply (comp_inv_frac L k i HCI)].
+    unfold comp_full in HF. rewrite HK, HF. field. exact Hnz.
+Qed.
+
+(** an empty well that receives a fully known liquid becomes fully known *)
+Lemma add_step_known_empty L i v c : mix_inv L -> (i < n_wells (lw_geom L))%nat -> 0 < v ->
+  NoDup (map fst c) -> comp_full c -> vol_at L i == 0 -> fully_known (add_step L i v (Some c)) i.
+Proof.
+  intros [HVB HCI] Hi Hv NC HF HE.
+  pose proof HCI as (HL & ND & HB & HS). unfold fully_known.
+  assert (Hnz : ~ vol_at L i + v == 0) by lra.
+  rewrite add_step_well_sum; try assumption; [|intro k; apply (comp_inv_frac L k i HCI)].
+  unfold comp_full in HF. rewrite HF, HE. field. lra.
+Qed.
+
+Lemma add_step_known_other L i v oc j : mix_inv L -> (i < n_wells (lw_geom L))%nat -> j <> i ->
+  fully_known L j -> fully_known (add_step L i v oc) j.
+Proof.
+  intros [_ (HL & _)] Hi Hj HK. unfold fully_known in *.
+  rewrite well_sum_add_step_other by assumption. exact HK.
+Qed.
+
+Lemma rem_step_inv L i v : mix_inv L -> lw_min L <= Qred (vol_at L i - v) -> mix_inv (rem_step L i v).
+Proof.
+  intros [(Hg & Hlen & Hmin & HV) HCI] Hacc. split; [|exact HCI].
+  unfold vol_base. cbn [rem_step set_vols lw_geom lw_vols lw_min].
+  split; [exact Hg|]. split; [rewrite upd_len; exact Hlen|]. split; [exact Hmin|].
+  apply Forall_upd'; [exact HV|]. lra.
+Qed.
+
+(* ------------------------------------------------------------------ the invariant: loops, add, remove *)
+
+Definition aitem_ok (it : string * xnum * option composition) : Prop :=
+  vol_ok (snd (fst it)) = true /\ ocomp_ok (snd it).
+
+Lemma vol_ok_XQ' v : vol_ok (XQ v) = true -> 0 <= v.
+Proof. cbn [vol_ok]. intro H. apply Qle_bool_iff. exact H. Qed.
+
+Lemma add_loop_inv items : forall L, Forall aitem_ok items -> mix_inv L ->
+  mix_inv (fst (add_loop L items)).
+Proof.
+  induction items as [|[[w x] oc] rest IH]; intros L HF HI; [exact HI|].
+  inversion HF as [|it r [Hv Hoc] Hrest]; subst. cbn [fst snd] in Hv, Hoc.
+  rewrite add_loop_cons'. destruct (lw_index L w) as [i|] eqn:Ei; [|exact HI].
+  destruct x as [v| | |]; try exact HI.
+  destruct (Qgtb (Qred (vol_at L i + v)) (lw_max L)); [exact HI|].
+  apply IH; [exact Hrest|]. apply add_step_inv; try assumption.
+  - apply (lw_index_lt L w i); [exact (proj1 (proj1 HI))|exact Ei].
+  - apply vol_ok_XQ'. exact Hv.
+Qed.
+
+Lemma remove_loop_inv items : forall L, mix_inv L -> mix_inv (fst (remove_loop L items)).
+Proof.
+  induction items as [|[w x] rest IH]; intros L HI; [exact HI|].
+  rewrite remove_loop_cons'. destruct (lw_index L w) as [i|] eqn:Ei; [|exact HI].
+  destruct x as [v| | |]; try exact HI.
+  destruct (Qltb (Qred (vol_at L i - v)) (lw_min L)) eqn:E; [exact HI|].
+  apply IH. apply rem_step_inv; [exact HI|]. apply Qltb_false'. exact E.
+Qed.
+
+(** C05_remove_neutral *)
+Lemma remove_loop_comp items : forall L, lw_comp (fst (remove_loop L items)) = lw_comp L.
+Proof.
+  induction items as [|[w x] rest IH]; intro L; [reflexivity|].
+  rewrite remove_loop_cons'. destruct (lw_index L w) as [i|]; [|reflexivity].
+  destruct x as [v| | |]; try reflexivity.
+  destruct (Qltb (Qred (vol_at L i - v)) (lw_min L)); [reflexivity|].
+  rewrite IH. reflexivity.
+Qed.
+
+Lemma remove_comp L wells vols label : lw_comp (fst (remove L wells vols label)) = lw_comp L.
+Proof.
+  unfold remove. destruct (prep_wells_vols wells vols) as [wv|e]; [|reflexivity].
+  pose proof (remove_loop_comp wv L) as H.
+  destruct (remove_loop L wv) as [L' [e|]]; cbn [fst] in *; exact H.
+Qed.
+
+Lemma mix_inv_same L L' : lw_geom L' = lw_geom L -> lw_vols L' = lw_vols L -> lw_min L' = lw_min L ->
+  lw_comp L' = lw_comp L -> mix_inv L -> mix_inv L'.
+Proof.
+  intros Eg Ev Em Ec HI. unfold mix_inv, vol_base, comp_inv, well_sum in *.
+  rewrite Eg, Ev, Em, Ec. exact HI.
+Qed.
+
+Lemma log_inv L label : mix_inv L -> mix_inv (log L label).
+Proof. apply mix_inv_same; reflexivity. Qed.
+
+Lemma condense_log_inv L n label : mix_inv L -> mix_inv (condense_log L n label).
+Proof. unfold condense_log. destruct (n <? 1)%nat; [auto|]. apply mix_inv_same; reflexivity. Qed.
+
+Lemma condense_log_comp L n label : lw_comp (condense_log L n label) = lw_comp L /\
+  lw_vols (condense_log L n label) = lw_vols L /\ lw_geom (condense_log L n label) = lw_geom L.
+Proof. unfold condense_log. destruct (n <? 1)%nat; repeat split. Qed.
+
+Lemma remove_inv L wells vols label : mix_inv L -> mix_inv (fst (remove L wells vols label)).
+Proof.
+  intro HI. unfold remove. destruct (prep_wells_vols wells vols) as [wv|e]; [|exact HI].
+  pose proof (remove_loop_inv wv L HI) as H.
+  destruct (remove_loop L wv) as [L' [e|]]; cbn [fst] in *; [exact H|]. apply log_inv. exact H.
+Qed.
+
+Lemma Forall_zip {A B} (P : A -> Prop) (R : B -> Prop) (l1 : list A) : forall (l2 : list B),
+  Forall P l1 -> Forall R l2 -> Forall (fun p => P (fst p) /\ R (snd p)) (zip l1 l2).
+Proof.
+  induction l1 as [|a r1 IH]; intros l2 H1 H2; [constructor|].
+  destruct l2 as [|b r2]; [constructor|]. cbn [zip].
+  inversion H1; subst. inversion H2; subst. constructor; [split; assumption|]. apply IH; assumption.
+Qed.
+
+Lemma Forall_zip_r {A B} (R : B -> Prop) (l1 : list A) : forall (l2 : list B),
+  Forall R l2 -> Forall (fun p => R (snd p)) (zip l1 l2).
+Proof.
+  induction l1 as [|a r1 IH]; intros l2 H2; [constructor|].
+  destruct l2 as [|b r2]; [constructor|]. cbn [zip].
+  inversion H2; subst. constructor; [assumption|]. apply IH; assumption.
+Qed.
+
+Lemma prep_wells_vols_vol_ok wells vols wv : prep_wells_vols wells vols = Ok wv ->
+  Forall (fun p => vol_ok (snd p) = true) wv.
+Proof.
+  unfold prep_wells_vols.
+  destruct (negb (length (broadcast (flattenF vols) (length (flattenF wells))) =? length (flattenF wells))%nat);
+    [discriminate|].
+  destruct (forallb vol_ok (broadcast (flattenF vols) (length (flattenF wells)))) eqn:E; [|discriminate].
+  cbn [negb]. intro H. inversion H; subst.
+  apply (Forall_zip_r (fun x => vol_ok x = true)). apply Forall_forall.
+  rewrite forallb_forall in E. exact E.
+Qed.
+
+Definition comps_ok (comps : option (list (option composition))) : Prop :=
+  match comps with Some cs => Forall ocomp_ok cs | None => True end.
+
+Lemma add_inv L wells vols label comps : mix_inv L -> comps_ok comps ->
+  mix_inv (fst (add L wells vols label comps)).
+Proof.
+  intros HI HC. unfold add. destruct (prep_wells_vols wells vols) as [wv|e] eqn:EP; [|exact HI].
+  set (comps' := match comps with Some cs => cs | None => repeat None (length wv) end).
+  destruct (negb (length comps' =? length wv)%nat); [exact HI|].
+  assert (HF : Forall aitem_ok (map (fun p => (fst (fst p), snd (fst p), snd p)) (zip wv comps'))).
+  { apply Forall_map.
+    assert (HC' : Forall ocomp_ok comps').
+    { unfold comps'. destruct comps as [cs|]; [exact HC|]. apply Forall_forall. intros oc Hoc.
+      apply repeat_spec in Hoc. subst oc. exact I. }
+    pose proof (Forall_zip _ _ wv comps' (prep_wells_vols_vol_ok _ _ _ EP) HC') as HZ.
+    eapply Forall_impl; [|exact HZ]. intros [[w x] oc] [H1 H2]. split; assumption. }
+  pose proof (add_loop_inv _ L HF HI) as H.
+  destruct (add_loop L _) as [L' [e|]]; cbn [fst] in *; [exact H|]. apply log_inv. exact H.
+Qed.
+
+(* ------------------------------------------------------------------ the state level *)
+
+Definition st_inv (s : state) : Prop := Forall mix_inv (st_lw s).
+
+Lemma st_inv_nth s k L : st_inv s -> nth_error (st_lw s) k = Some L -> mix_inv L.
+Proof. intros H E. unfold st_inv in H. rewrite Forall_forall in H. apply H. eapply nth_error_In. exact E. Qed.
+
+Lemma st_inv_upd s l k L : st_lw s = l -> Forall mix_inv l -> mix_inv L -> Forall mix_inv (upd l k L).
+Proof. intros _ H HL. apply Forall_upd'; assumption. Qed.
+
+Lemma aspirate_st_lw s k wells vols label kw :
+  st_lw (fst (aspirate s k wells vols label kw)) =
+  match nth_error (st_lw s) k with
+  | None => st_lw s
+  | Some L => upd (st_lw s) k
+                (fst (remove L (A1 (flattenF wells))
+                        (A1 (broadcast (flattenF vols) (length (flattenF wells)))) label))
+  end.
+Proof.
+  unfold aspirate, wells_vols. destruct (nth_error (st_lw s) k) as [L|]; [|reflexivity].
+  cbv beta zeta iota.
+  destruct (remove L (A1 (flattenF wells)) (A1 (broadcast (flattenF vols) (length (flattenF wells)))) label)
+    as [L' [e|]]; [reflexivity|].
+  destruct (comment (st_wl (set_lw s k L')) label) as [w [e|]]; [reflexivity|].
+  destruct (emit_wells true w L' (zip (flattenF wells) (broadcast (flattenF vols) (length (flattenF wells)))) kw)
+    as [w' e']. reflexivity.
+Qed.
+
+Lemma dispense_st_lw s k wells vols label comps kw :
+  st_lw (fst (dispense s k wells vols label comps kw)) =
+  match nth_error (st_lw s) k with
+  | None => st_lw s
+  | Some L => upd (st_lw s) k
+                (fst (add L (A1 (flattenF wells))
+                        (A1 (broadcast (flattenF vols) (length (flattenF wells)))) label comps))
+  end.
+Proof.
+  unfold dispense, wells_vols. destruct (nth_error (st_lw s) k) as [L|]; [|reflexivity].
+  cbv beta zeta iota.
+  destruct (add L (A1 (flattenF wells)) (A1 (broadcast (flattenF vols) (length (flattenF wells)))) label comps)
+    as [L' [e|]]; [reflexivity|].
+  destruct (comment (st_wl (set_lw s k L')) label) as [w [e|]]; [reflexivity|].
+  destruct (emit_wells false w L' (zip (flattenF wells) (broadcast (flattenF vols) (length (flattenF wells)))) kw)
+    as [w' e']. reflexivity.
+Qed.
+
+(** C05_remove_neutral on the state level *)
+Lemma map_upd {A B} (f : A -> B) (l : list A) : forall k x, map f (upd l k x) = upd (map f l) k (f x).
+Proof.
+  induction l as [|y r IH]; intros k x; [destruct k; reflexivity|].
+  destruct k as [|k]; cbn [upd map]; [reflexivity|]. rewrite IH. reflexivity.
+Qed.
+
+Lemma upd_same_nth_error {A} (l : list A) : forall k x, nth_error l k = Some x -> upd l k x = l.
+Proof.
+  induction l as [|y r IH]; intros k x E; [destruct k; reflexivity|].
+  destruct k as [|k]; cbn [nth_error] in E; cbn [upd]; [inversion E; reflexivity|].
+  rewrite IH by exact E. reflexivity.
+Qed.
+
+Lemma aspirate_comp s k wells vols label kw :
+  map lw_comp (st_lw (fst (aspirate s k wells vols label kw))) = map lw_comp (st_lw s).
+Proof.
+  rewrite aspirate_st_lw. destruct (nth_error (st_lw s) k) as [L|] eqn:E; [|reflexivity].
+  rewrite map_upd, remove_comp. apply upd_same_nth_error. rewrite nth_error_map, E. reflexivity.
+Qed.
+
+Lemma aspirate_inv s k wells vols label kw : st_inv s -> st_inv (fst (aspirate s k wells vols label kw)).
+Proof.
+  intro HI. unfold st_inv. rewrite aspirate_st_lw.
+  destruct (nth_error (st_lw s) k) as [L|] eqn:E; [|exact HI].
+  apply Forall_upd'; [exact HI|]. apply remove_inv. exact (st_inv_nth s k L HI E).
+Qed.
+
+Lemma dispense_inv s k wells vols label comps kw : st_inv s -> comps_ok comps ->
+  st_inv (fst (dispense s k wells vols label comps kw)).
+Proof.
+  intros HI HC. unfold st_inv. rewrite dispense_st_lw.
+  destruct (nth_error (st_lw s) k) as [L|] eqn:E; [|exact HI].
+  apply Forall_upd'; [exact HI|]. apply add_inv; [exact (st_inv_nth s k L HI E)|exact HC].
+Qed.
+
+(** what [get_well_composition] returns is an admissible composition *)
+Lemma wca_comp_ok L i : mix_inv L -> comp_ok (wca (lw_comp L) i) /\
+  ((i < n_wells (lw_geom L))%nat -> Qsum (map snd (wca (lw_comp L) i)) == well_sum L i).
+Proof.
+  intros [_ (HL & ND & HB & HS)].
+  assert (Hnn : forall ka, In ka (lw_comp L) -> 0 <= nth i (snd ka) 0).
+  { intros ka Hka. unfold frac_bounds in HB. rewrite Forall_forall in HB.
+    apply (Forall_nth' (fun f => 0 <= f /\ f <= 1) (snd ka) 0 i (HB ka Hka)). lra. }
+  assert (Hsum : Qsum (map snd (wca (lw_comp L) i)) == well_sum L i) by (apply wca_sum; exact Hnn).
+  split; [|intros _; exact Hsum].
+  split; [apply wca_NoDup; exact ND|]. split; [apply wca_bounds; exact HB|].
+  rewrite Hsum. destruct (Nat.lt_ge_cases i (n_wells (lw_geom L))) as [Hi|Hge]; [apply HS; exact Hi|].
+  (* outside the table every array reads its default 0 *)
+  unfold well_sum, col_sum.
+  rewrite (Qsum_map_zero (fun ka => nth i (snd ka) 0)); [lra|].
+  intros ka Hka. unfold arrays_len in HL. rewrite Forall_forall in HL.
+  rewrite nth_overflow by (rewrite (HL ka Hka); exact Hge). reflexivity.
+Qed.
+
+Lemma get_well_composition_ok L w c : mix_inv L -> get_well_composition L w = Ok c -> comp_ok c.
+Proof.
+  intros HI H. unfold get_well_composition in H. destruct (lw_index L w) as [i|]; [|discriminate].
+  inversion H; subst. rewrite well_composition_at_wca. apply wca_comp_ok. exact HI.
+Qed.
+
+Lemma st_inv_set_wl s w : st_inv s -> st_inv (set_wl s w).
+Proof. intro H. exact H. Qed.
+
+Lemma exec_step_inv s ks kd sw dw v ws kw : st_inv s -> st_inv (fst (exec_step s ks kd sw dw v ws kw)).
+Proof.
+  intro HI. unfold exec_step.
+  pose proof (aspirate_inv s ks (A0 sw) (A0 (XQ v)) None kw HI) as H1.
+  destruct (aspirate s ks (A0 sw) (A0 (XQ v)) None kw) as [s1 [e|]]; cbn [fst] in *; [exact H1|].
+  destruct (nth_error (st_lw s1) ks) as [Ls|] eqn:EL; [|exact H1].
+  destruct (get_well_composition Ls sw) as [c|e] eqn:EC; [|exact H1].
+  assert (HC : comps_ok (Some [Some c])).
+  { constructor; [|constructor]. cbn [ocomp_ok].
+    apply (get_well_composition_ok Ls sw c); [exact (st_inv_nth s1 ks Ls H1 EL)|exact EC]. }
+  pose proof (dispense_inv s1 kd (A0 dw) (A0 (XQ v)) None (Some [Some c]) kw H1 HC) as H2.
+  destruct (dispense s1 kd (A0 dw) (A0 (XQ v)) None (Some [Some c]) kw) as [s2 [e|]]; cbn [fst] in *;
+    [exact H2|].
+  destruct (tip_action (st_wl s2) ws) as [w e]. exact H2.
+Qed.
+
+Lemma exec_inv acts : forall s ks kd ws kw, st_inv s -> st_inv (fst (exec s ks kd acts ws kw)).
+Proof.
+  induction acts as [|a rest IH]; intros s ks kd ws kw HI; [exact HI|].
+  destruct a as [sw dw v|]; cbn [exec].
+  - pose proof (exec_step_inv s ks kd sw dw v ws kw HI) as H1.
+    destruct (exec_step s ks kd sw dw v ws kw) as [s' [e|]]; cbn [fst] in *; [exact H1|].
+    apply IH. exact H1.
+  - apply IH. exact HI.
+Qed.
+
+Lemma condense_at_inv s k n label : st_inv s -> st_inv (condense_at s k n label).
+Proof.
+  intro HI. unfold condense_at. destruct (nth_error (st_lw s) k) as [L|] eqn:E; [|exact HI].
+  unfold st_inv. cbn [set_lw st_lw]. apply Forall_upd'; [exact HI|].
+  apply condense_log_inv. exact (st_inv_nth s k L HI E).
+Qed.
+
+Lemma transfer_inv s ks swells kd dwells vols label ws pb kw : st_inv s ->
+  st_inv (fst (transfer s ks swells kd dwells vols label ws pb kw)).
+Proof.
+  intro HI. unfold transfer.
+  destruct (w_dev (st_wl s)); try exact HI;
+  (destruct (nth_error (st_lw s) ks) as [Ls|]; [|exact HI];
+   destruct (nth_error (st_lw s) kd) as [Ld|]; [|exact HI];
+   cbv zeta;
+   match goal with |- context [if negb ?b then _ else _] => destruct (negb b); [exact HI|] end;
+   match goal with |- context [if existsb ?f ?l then _ else _] => destruct (existsb f l); [exact HI|] end;
+   match goal with |- context [if ?a || ?b then _ else _] => destruct (a || b); [exact HI|] end;
+   destruct (optimize_partition_by (is_trough (lw_geom Ls)) (is_trough (lw_geom Ld)) pb) as [mode|e];
+     [|exact HI];
+   destruct (comment (st_wl s) label) as [w [e|]]; [exact HI|];
+   match goal with |- context [exec ?s0 ?a ?b ?acts ?c ?d] =>
+     pose proof (exec_inv acts s0 a b c d HI) as HE; destruct (exec s0 a b acts c d) as [s' [e|]] end;
+   cbn [fst] in *; [exact HE|];
+   match goal with |- context [if ?b then _ else _] => destruct b end; cbn [fst];
+   repeat apply condense_at_inv; exact HE).
+Qed.
+
+(* ------------------------------------------------------------------ single-well calls *)
+
+Lemma remove_single L sw v label :
+  remove L (A1 [sw]) (A1 [XQ v]) label =
+  if Qle_bool 0 v then
+    match lw_index L sw with
+    | None => (L, Some EReject)
+    | Some i => if Qltb (Qred (vol_at L i - v)) (lw_min L) then (L, Some EUnderflow)
+                else (log (rem_step L i v) label, None)
+    end
+  else (L, Some EReject).
+Proof.
+  unfold remove, prep_wells_vols. cbn [flattenF broadcast length repeat Nat.eqb negb forallb vol_ok].
+  rewrite andb_true_r. destruct (Qle_bool 0 v); cbn [negb zip]; [|reflexivity].
+  rewrite remove_loop_cons'. destruct (lw_index L sw) as [i|]; [|reflexivity].
+  destruct (Qltb (Qred (vol_at L i - v)) (lw_min L)); reflexivity.
+Qed.
+
+Lemma add_single L dw v label c :
+  add L (A1 [dw]) (A1 [XQ v]) label (Some [Some c]) =
+  if Qle_bool 0 v then
+    match lw_index L dw with
+    | None => (L, Some EReject)
+    | Some i => if Qgtb (Qred (vol_at L i + v)) (lw_max L) then (L, Some EOverflow)
+                else (log (add_step L i v (Some c)) label, None)
+    end
+  else (L, Some EReject).
+Proof.
+  unfold add, prep_wells_vols. cbn [flattenF broadcast length repeat Nat.eqb negb forallb vol_ok].
+  rewrite andb_true_r. destruct (Qle_bool 0 v); cbn [negb zip length Nat.eqb map fst snd]; [|reflexivity].
+  rewrite add_loop_cons'. destruct (lw_index L dw) as [i|]; [|reflexivity].
+  destruct (Qgtb (Qred (vol_at L i + v)) (lw_max L)); reflexivity.
+Qed.
+
+Lemma aspirate_single s ks sw v kw s1 :
+  aspirate s ks (A0 sw) (A0 (XQ v)) None kw = (s1, None) ->
+  exists Ls i, nth_error (st_lw s) ks = Some Ls /\ lw_index Ls sw = Some i /\ 0 <= v /\
+               lw_min Ls <= Qred (vol_at Ls i - v) /\
+               st_lw s1 = upd (st_lw s) ks (log (rem_step Ls i v) None).
+Proof.
+  unfold aspirate, wells_vols. destruct (nth_error (st_lw s) ks) as [Ls|] eqn:ELs; [|discriminate].
+  cbn [flattenF broadcast length repeat]. cbv beta zeta iota. rewrite remove_single.
+  destruct (Qle_bool 0 v) eqn:Ev; [|discriminate].
+  destruct (lw_index Ls sw) as [i|] eqn:Ei; [|discriminate].
+  destruct (Qltb (Qred (vol_at Ls i - v)) (lw_min Ls)) eqn:El; [discriminate|].
+  destruct (comment (st_wl (set_lw s ks (log (rem_step Ls i v) None))) None) as [w [e|]]; [discriminate|].
+  destruct (emit_wells true w (log (rem_step Ls i v) None) (zip [sw] [XQ v]) kw) as [w' e'].
+  intro H. inversion H; subst. exists Ls, i. split; [reflexivity|]. split; [exact Ei|].
+  split; [apply Qle_bool_iff; exact Ev|]. split; [apply Qltb_false'; exact El|reflexivity].
+Qed.
+
+Lemma dispense_single s kd dw v c kw s2 :
+  dispense s kd (A0 dw) (A0 (XQ v)) None (Some [Some c]) kw = (s2, None) ->
+  exists Ld i, nth_error (st_lw s) kd = Some Ld /\ lw_index Ld dw = Some i /\ 0 <= v /\
+               st_lw s2 = upd (st_lw s) kd (log (add_step Ld i v (Some c)) None).
+Proof.
+  unfold dispense, wells_vols. destruct (nth_error (st_lw s) kd) as [Ld|] eqn:ELd; [|discriminate].
+  cbn [flattenF broadcast length repeat]. cbv beta zeta iota. rewrite add_single.
+  destruct (Qle_bool 0 v) eqn:Ev; [|discriminate].
+  destruct (lw_index Ld dw) as [i|] eqn:Ei; [|discriminate].
+  destruct (Qgtb (Qred (vol_at Ld i + v)) (lw_max Ld)); [discriminate|].
+  destruct (comment (st_wl (set_lw s kd (log (add_step Ld i v (Some c)) None))) None) as [w [e|]];
+    [discriminate|].
+  destruct (emit_wells false w (log (add_step Ld i v (Some c)) None) (zip [dw] [XQ v]) kw) as [w' e'].
+  intro H. inversion H; subst. exists Ld, i. split; [reflexivity|]. split; [exact Ei|].
+  split; [apply Qle_bool_iff; exact Ev|reflexivity].
+Qed.
+
+Lemma nth_error_upd {A} (l : list A) : forall k x k' y, nth_error l k = Some y ->
+  nth_error (upd l k x) k' = if (k' =? k)%nat then Some x else nth_error l k'.
+Proof.
+  induction l as [|z r IH]; intros k x k' y E; [destruct k; discriminate|].
+  destruct k as [|k]; destruct k' as [|k']; cbn [upd nth_error Nat.eqb]; try reflexivity.
+  cbn [nth_error] in E. apply (IH k x k' y E).
+Qed.
+
+(** a successful pipetting step, seen on the labware list *)
+Lemma exec_step_ok s ks kd sw dw v ws kw s' :
+  exec_step s ks kd sw dw v ws kw = (s', None) ->
+  exists Ls i_s Ld i_d,
+    nth_error (st_lw s) ks = Some Ls /\ lw_index Ls sw = Some i_s /\ 0 <= v /\
+    lw_min Ls <= Qred (vol_at Ls i_s - v) /\
+    nth_error (upd (st_lw s) ks (log (rem_step Ls i_s v) None)) kd = Some Ld /\
+    lw_index Ld dw = Some i_d /\
+    st_lw s' = upd (upd (st_lw s) ks (log (rem_step Ls i_s v) None)) kd
+                   (log (add_step Ld i_d v (Some (wca (lw_comp Ls) i_s))) None).
+Proof.
+  unfold exec_step.
+  destruct (aspirate s ks (A0 sw) (A0 (XQ v)) None kw) as [s1 [e|]] eqn:EA; [discriminate|].
+  destruct (aspirate_single s ks sw v kw s1 EA) as (Ls & i_s & ELs & Eis & Hv & Hmin & Es1).
+  assert (EL1 : nth_error (st_lw s1) ks = Some (log (rem_step Ls i_s v) None)).
+  { rewrite Es1, (nth_error_upd _ _ _ _ _ ELs), Nat.eqb_refl. reflexivity. }
+  rewrite EL1. unfold get_well_composition.
+  rewrite (lw_index_geom' (log (rem_step Ls i_s v) None) Ls sw eq_refl), Eis.
+  rewrite well_composition_at_wca. cbn [log set_hist rem_step set_vols lw_comp].
+  destruct (dispense s1 kd (A0 dw) (A0 (XQ v)) None (Some [Some (wca (lw_comp Ls) i_s)]) kw)
+    as [s2 [e|]] eqn:ED; [discriminate|].
+  destruct (dispense_single s1 kd dw v _ kw s2 ED) as (Ld & i_d & ELd & Eid & _ & Es2).
+  destruct (tip_action (st_wl s2) ws) as [w e]. intro H. inversion H; subst.
+  exists Ls, i_s, Ld, i_d. rewrite <- Es1. repeat split; try assumption.
+Qed.
+
+(* ------------------------------------------------------------------ amounts *)
+
+Lemma Qsum_map_change (f g : nat -> Q) (l : list nat) a : NoDup l -> In a l ->
+  (forall j, In j l -> j <> a -> g j == f j) ->
+  Qsum (map g l) == Qsum (map f l) + g a - f a.
+Proof.
+  induction l as [|x r IH]; intros ND Hin H; [destruct Hin|].
+  inversion ND as [|x' r' Hnot ND']; subst. cbn [map]. rewrite !Qsum_cons.
+  destruct (Nat.eq_dec x a) as [E|N].
+  - subst x. rewrite (Qsum_map_ext g f r); [ring|].
+    intros j Hj. apply H; [right; exact Hj|]. intro E. subst j. contradiction.
+  - destruct Hin as [E|Hin]; [contradiction|].
+    rewrite (IH ND' Hin) by (intros j Hj Hne; apply H; [right; exact Hj|exact Hne]).
+    rewrite (H x) by (try (left; reflexivity); exact N). ring.
+Qed.
+
+Lemma lw_amount_change L L' k i : lw_geom L' = lw_geom L -> (i < n_wells (lw_geom L))%nat ->
+  (forall j, j <> i -> vol_at L' j * frac L' k j == vol_at L j * frac L k j) ->
+  lw_amount L' k == lw_amount L k + vol_at L' i * frac L' k i - vol_at L i * frac L k i.
+Proof.
+  intros Eg Hi H. unfold lw_amount. rewrite Eg.
+  apply (Qsum_map_change (fun j => vol_at L j * frac L k j) (fun j => vol_at L' j * frac L' k j)).
+  - apply seq_NoDup.
+  - apply in_seq. lia.
+  - intros j _ Hj. apply H. exact Hj.
+Qed.
+
+Lemma lw_amount_rem_step L i v k : (i < n_wells (lw_geom L))%nat -> length (lw_vols L) = n_wells (lw_geom L) ->
+  lw_amount (rem_step L i v) k == lw_amount L k - v * frac L k i.
+Proof.
+  intros Hi Hlen. rewrite (lw_amount_change L (rem_step L i v) k i eq_refl Hi).
+  - rewrite vol_at_rem_step by lia. rewrite Nat.eqb_refl, Qred_correct.
+    change (frac (rem_step L i v) k i) with (frac L k i). ring.
+  - intros j Hj. rewrite vol_at_rem_step by lia.
+    destruct (Nat.eqb_spec i j) as [E|_]; [congruence|]. reflexivity.
+Qed.
+
+(** the amount of a component in the addressed well after one mixing step *)
+Lemma add_step_amt L i v c k : mix_inv L -> (i < n_wells (lw_geom L))%nat -> 0 <= v ->
+  NoDup (map fst c) ->
+  vol_at (add_step L i v (Some c)) i * frac (add_step L i v (Some c)) k i
+  == vol_at L i * frac L k i + v * cget k c.
+Proof.
+  intros [HVB HCI] Hi Hv NC. pose proof (vol_base_vol_at L i HVB) as H0.
+  pose proof HCI as (HL & ND & HB & HS). destruct HVB as (_ & Hlen & _).
+  rewrite vol_at_add_step by lia. rewrite Nat.eqb_refl, Qred_correct.
+  destruct (Qeq_dec (vol_at L i + v) 0) as [Hz|Hnz].
+  - unfold frac at 1. rewrite add_step_guard by assumption. fold (frac L k i).
+    assert (vol_at L i == 0) by lra. assert (v == 0) by lra. rewrite Hz, H, H1. ring.
+  - rewrite add_step_frac_same by (try assumption; apply (comp_inv_frac L k i HCI)).
+    field. exact Hnz.
+Qed.
+
+Lemma lw_amount_add_step L i v c k : mix_inv L -> (i < n_wells (lw_geom L))%nat -> 0 <= v ->
+  NoDup (map fst c) ->
+  lw_amount (add_step L i v (Some c)) k == lw_amount L k + v * cget k c.
+Proof.
+  intros HI Hi Hv NC. pose proof HI as [(_ & Hlen & _) (HL & ND & _)].
+  rewrite (lw_amount_change L (add_step L i v (Some c)) k i (add_step_geom L i v _) Hi).
+  - rewrite add_step_amt by assumption. ring.
+  - intros j Hj. rewrite vol_at_add_step by lia.
+    destruct (Nat.eqb_spec i j) as [E|_]; [congruence|].
+    rewrite add_step_frac_other by assumption. reflexivity.
+Qed.
+
+Lemma total_amount_upd l : forall k0 L L' k, nth_error l k0 = Some L ->
+  total_amount (upd l k0 L') k == total_amount l k - lw_amount L k + lw_amount L' k.
+Proof.
+  unfold total_amount. induction l as [|x r IH]; intros k0 L L' k E; [destruct k0; discriminate|].
+  destruct k0 as [|k0]; cbn [nth_error] in E; cbn [upd map]; rewrite !Qsum_cons.
+  - inversion E; subst. ring.
+  - rewrite (IH k0 L L' k E). ring.
+Qed.
+
+(** C05_conserved, one pipetting step *)
+Lemma exec_step_conserved s ks kd sw dw v ws kw s' k : st_inv s ->
+  exec_step s ks kd sw dw v ws kw = (s', None) ->
+  total_amount (st_lw s') k == total_amount (st_lw s) k.
+Proof.
+  intros HI H.
+  destruct (exec_step_ok _ _ _ _ _ _ _ _ _ H) as (Ls & i_s & Ld & i_d & ELs & Eis & Hv & Hmin & ELd & Eid & Es').
+  pose proof (st_inv_nth s ks Ls HI ELs) as HLs.
+  assert (His : (i_s < n_wells (lw_geom Ls))%nat) by (apply (lw_index_lt Ls sw); [apply HLs|exact Eis]).
+  assert (HLs' : mix_inv (log (rem_step Ls i_s v) None)).
+  { apply log_inv. apply rem_step_inv; assumption. }
+  assert (HLd : mix_inv Ld).
+  { assert (HF : Forall mix_inv (upd (st_lw s) ks (log (rem_step Ls i_s v) None)))
+      by (apply Forall_upd'; assumption).
+    rewrite Forall_forall in HF. apply HF. eapply nth_error_In. exact ELd. }
+  assert (Hid : (i_d < n_wells (lw_geom Ld))%nat) by (apply (lw_index_lt Ld dw); [apply HLd|exact Eid]).
+  pose proof (wca_comp_ok Ls i_s HLs) as [(NC & _) _].
+  rewrite Es'. rewrite (total_amount_upd _ kd Ld _ k ELd). rewrite (total_amount_upd _ ks Ls _ k ELs).
+  change (lw_amount (log (add_step Ld i_d v (Some (wca (lw_comp Ls) i_s))) None) k)
+    with (lw_amount (add_step Ld i_d v (Some (wca (lw_comp Ls) i_s))) k).
+  change (lw_amount (log (rem_step Ls i_s v) None) k) with (lw_amount (rem_step Ls i_s v) k).
+  rewrite lw_amount_add_step by assumption.
+  rewrite lw_amount_rem_step by (try assumption; apply HLs).
+  rewrite wca_get_pfrac by apply HLs.
+  rewrite pfrac_nonneg by apply (comp_inv_frac Ls k i_s (proj2 HLs)). ring.
+Qed.
+
+Lemma total_amount_same l l' k : map (fun L => lw_amount L k) l' = map (fun L => lw_amount L k) l ->
+  total_amount l' k = total_amount l k.
+Proof. intro H. unfold total_amount. rewrite H. reflexivity. Qed.
+
+Lemma condense_at_amount s k0 n label k :
+  total_amount (st_lw (condense_at s k0 n label)) k = total_amount (st_lw s) k.
+Proof.
+  unfold condense_at. destruct (nth_error (st_lw s) k0) as [L|] eqn:E; [|reflexivity].
+  apply total_amount_same. cbn [set_lw st_lw]. rewrite map_upd.
+  apply upd_same_nth_error. rewrite nth_error_map, E. cbn [option_map].
+  unfold condense_log. destruct (n <? 1)%nat; reflexivity.
+Qed.
+
+Lemma exec_conserved acts : forall s ks kd ws kw s' k, st_inv s ->
+  exec s ks kd acts ws kw = (s', None) -> total_amount (st_lw s') k == total_amount (st_lw s) k.
+Proof.
+  induction acts as [|a rest IH]; intros s ks kd ws kw s' k HI H.
+  - cbn [exec] in H. inversion H; subst. reflexivity.
+  - destruct a as [sw dw v|]; cbn [exec] in H.
+    + destruct (exec_step s ks kd sw dw v ws kw) as [s1 [e|]] eqn:E1; [discriminate|].
+      rewrite (IH s1 ks kd ws kw s' k) by
+        (try exact H; pose proof (exec_step_inv s ks kd sw dw v ws kw HI) as HI1; rewrite E1 in HI1; exact HI1).
+      apply (exec_step_conserved s ks kd sw dw v ws kw s1 k HI E1).
+    + exact (IH (set_wl s (fst (commit (st_wl s)))) ks kd ws kw s' k HI H).
+Qed.
+
+(** C05_conserved for [transfer] *)
+Lemma transfer_conserved s ks swells kd dwells vols label ws pb kw s' k : st_inv s ->
+  transfer s ks swells kd dwells vols label ws pb kw = (s', None) ->
+  total_amount (st_lw s') k == total_amount (st_lw s) k.
+Proof.
+  intros HI. unfold transfer.
+  destruct (w_dev (st_wl s)); try discriminate;
+  (destruct (nth_error (st_lw s) ks) as [Ls|]; [|discriminate];
+   destruct (nth_error (st_lw s) kd) as [Ld|]; [|discriminate];
+   cbv zeta;
+   match goal with |- context [if negb ?b then _ else _] => destruct (negb b); [discriminate|] end;
+   match goal with |- context [if existsb ?f ?l then _ else _] => destruct (existsb f l); [discriminate|] end;
+   match goal with |- context [if ?a || ?b then _ else _] => destruct (a || b); [discriminate|] end;
+   destruct (optimize_partition_by (is_trough (lw_geom Ls)) (is_trough (lw_geom Ld)) pb) as [mode|e];
+     [|discriminate];
+   destruct (comment (st_wl s) label) as [w [e|]]; [discriminate|];
+   match goal with |- context [exec ?s0 ?a ?b ?acts ?c ?d] =>
+     pose proof (fun s1 => exec_conserved acts s0 a b c d s1 k HI) as HE;
+     destruct (exec s0 a b acts c d) as [s1 [e|]] end; [discriminate|];
+   specialize (HE s1 eq_refl); cbn [set_wl st_lw] in HE;
+   match goal with |- context [if ?b then _ else _] => destruct b end;
+   intro H; inversion H; subst; rewrite ?condense_at_amount; exact HE).
+Qed.
+
+(* ------------------------------------------------------------------ refinement of the ideal-mixing spec *)
+
+Definition abs_list (l : list labware) : istate :=
+  fun k i => match nth_error l k with Some L => abs_well L i | None => iw_empty end.
+
+Lemma abs_state_list s : abs_state s = abs_list (st_lw s).
+Proof. reflexivity. Qed.
+
+Lemma iw_eq_refl w : iw_eq w w.
+Proof. split; [reflexivity|intro k; reflexivity]. Qed.
+Lemma iw_eq_sym a b : iw_eq a b -> iw_eq b a.
+Proof. intros [H1 H2]. split; [symmetry; exact H1|intro k; symmetry; apply H2]. Qed.
+Lemma iw_eq_trans a b c : iw_eq a b -> iw_eq b c -> iw_eq a c.
+Proof.
+  intros [H1 H2] [H3 H4]. split; [rewrite H1; exact H3|intro k; rewrite H2; apply H4].
+Qed.
+
+Lemma iw_add_congr w w' v g g' : iw_eq w w' -> (forall k, g k == g' k) ->
+  iw_eq (iw_add w v g) (iw_add w' v g').
+Proof.
+  intros [H1 H2] Hg. split; cbn [iw_add iw_vol iw_amt]; [rewrite H1; reflexivity|].
+  intro k. rewrite H2, Hg. reflexivity.
+Qed.
+
+Lemma is_upd_congr (W W' : istate) k0 i0 w w' : (forall k i, iw_eq (W k i) (W' k i)) -> iw_eq w w' ->
+  forall k i, iw_eq (is_upd W k0 i0 w k i) (is_upd W' k0 i0 w' k i).
+Proof.
+  intros HW Hw k i. unfold is_upd. destruct ((k =? k0)%nat && (i =? i0)%nat); [exact Hw|apply HW].
+Qed.
+
+Lemma is_upd_same (W : istate) k0 i0 w : iw_eq w (W k0 i0) ->
+  forall k i, iw_eq (is_upd W k0 i0 w k i) (W k i).
+Proof.
+  intros Hw k i. unfold is_upd. destruct (Nat.eqb_spec k k0) as [Ek|Nk]; cbn [andb]; [|apply iw_eq_refl].
+  destruct (Nat.eqb_spec i i0) as [Ei|Ni]; [|apply iw_eq_refl]. subst. exact Hw.
+Qed.
+
+(** the tracked effect of an accepted single-well removal *)
+Lemma abs_upd_rem l ks Ls i_s v lab : nth_error l ks = Some Ls -> (i_s < length (lw_vols Ls))%nat ->
+  forall k i, iw_eq (abs_list (upd l ks (log (rem_step Ls i_s v) lab)) k i)
+                    (is_upd (abs_list l) ks i_s
+                       {| iw_vol := vol_at Ls i_s - v;
+                          iw_amt := fun c => (vol_at Ls i_s - v) * frac Ls c i_s |} k i).
+Proof.
+  intros ELs Hi k i. unfold abs_list, is_upd. rewrite (nth_error_upd l ks _ k Ls ELs).
+  destruct (Nat.eqb_spec k ks) as [Ek|Nk]; cbn [andb]; [|apply iw_eq_refl].
+  subst k. rewrite ELs.
+  change (abs_well (log (rem_step Ls i_s v) lab) i)
+    with {| iw_vol := vol_at (rem_step Ls i_s v) i;
+            iw_amt := fun c => vol_at (rem_step Ls i_s v) i * frac Ls c i |}.
+  rewrite vol_at_rem_step by exact Hi. rewrite (Nat.eqb_sym i i_s).
+  destruct (Nat.eqb_spec i_s i) as [Ei|Ni].
+  - subst i. split; cbn [iw_vol iw_amt]; [apply Qred_correct|]. intro c. rewrite Qred_correct. reflexivity.
+  - apply iw_eq_refl.
+Qed.
+
+(** the tracked effect of an accepted single-well addition of a liquid of known composition *)
+Lemma abs_upd_add l kd Ld i_d v c lab : nth_error l kd = Some Ld -> mix_inv Ld ->
+  (i_d < n_wells (lw_geom Ld))%nat -> 0 <= v -> NoDup (map fst c) ->
+  forall k i, iw_eq (abs_list (upd l kd (log (add_step Ld i_d v (Some c)) lab)) k i)
+                    (is_upd (abs_list l) kd i_d
+                       (iw_add (abs_list l kd i_d) v (fun x => cget x c)) k i).
+Proof.
+  intros ELd HI Hi Hv NC k i. unfold abs_list, is_upd. rewrite (nth_error_upd l kd _ k Ld ELd).
+  destruct (Nat.eqb_spec k kd) as [Ek|Nk]; cbn [andb]; [|apply iw_eq_refl].
+  subst k. rewrite ELd. pose proof HI as [(_ & Hlen & _) (HL & ND & _)].
+  change (abs_well (log (add_step Ld i_d v (Some c)) lab) i)
+    with (abs_well (add_step Ld i_d v (Some c)) i).
+  destruct (Nat.eqb_spec i i_d) as [Ei|Ni].
+  - subst i. split; cbn [abs_well iw_add iw_vol iw_amt].
+    + rewrite vol_at_add_step by lia. rewrite Nat.eqb_refl. apply Qred_correct.
+    + intro x. apply add_step_amt; assumption.
+  - split; cbn [abs_well iw_vol iw_amt].
+    + rewrite vol_at_add_step by lia. destruct (Nat.eqb_spec i_d i) as [E|_]; [congruence|reflexivity].
+    + intro x. rewrite vol_at_add_step by lia. destruct (Nat.eqb_spec i_d i) as [E|_]; [congruence|].
+      rewrite add_step_frac_other by assumption. reflexivity.
+Qed.
+
+(** C05_refines: one successful pipetting step of a positive volume acts on the tracked wells
+    exactly as the ideal transfer does; in particular the source well is not empty, so the ideal
+    transfer divides by a positive volume only *)
+Lemma exec_step_refines s ks kd sw dw v ws kw s' : st_inv s -> 0 < v ->
+  exec_step s ks kd sw dw v ws kw = (s', None) ->
+  exists Ls i_s Ld i_d,
+    nth_error (st_lw s) ks = Some Ls /\ lw_index Ls sw = Some i_s /\
+    nth_error (st_lw s) kd = Some Ld /\ lw_index Ld dw = Some i_d /\
+    (i_s < n_wells (lw_geom Ls))%nat /\ (i_d < n_wells (lw_geom Ld))%nat /\
+    v <= vol_at Ls i_s /\
+    length (st_lw s') = length (st_lw s) /\
+    forall k i, iw_eq (abs_state s' k i) (is_transfer (abs_state s) ks i_s kd i_d v k i).
+Proof.
+  intros HI Hv H.
+  destruct (exec_step_ok _ _ _ _ _ _ _ _ _ H) as (Ls & i_s & Ld & i_d & ELs & Eis & _ & Hmin & ELd & Eid & Es').
+  pose proof (st_inv_nth s ks Ls HI ELs) as HLs.
+  assert (His : (i_s < n_wells (lw_geom Ls))%nat) by (apply (lw_index_lt Ls sw); [apply HLs|exact Eis]).
+  assert (HLs' : mix_inv (log (rem_step Ls i_s v) None)).
+  { apply log_inv. apply rem_step_inv; assumption. }
+  assert (HLd : mix_inv Ld).
+  { assert (HF : Forall mix_inv (upd (st_lw s) ks (log (rem_step Ls i_s v) None)))
+      by (apply Forall_upd'; assumption).
+    rewrite Forall_forall in HF. apply HF. eapply nth_error_In. exact ELd. }
+  assert (Hid : (i_d < n_wells (lw_geom Ld))%nat) by (apply (lw_index_lt Ld dw); [apply HLd|exact Eid]).
+  pose proof (wca_comp_ok Ls i_s HLs) as [(NC & _) _].
+  pose proof HLs as [(_ & Hlen & Hmin0 & _) HCI].
+  assert (Hle : v <= vol_at Ls i_s) by (rewrite Qred_correct in Hmin; lra).
+  assert (HVs : 0 < vol_at Ls i_s) by lra.
+  assert (Hv0 : 0 <= v) by lra.
+  (* the destination labware before the step *)
+  assert (ELd0 : exists Ld0, nth_error (st_lw s) kd = Some Ld0 /\ lw_geom Ld0 = lw_geom Ld).
+  { rewrite (nth_error_upd _ ks _ kd Ls ELs) in ELd. destruct (Nat.eqb_spec kd ks) as [E|N].
+    - subst kd. inversion ELd; subst. exists Ls. split; [exact ELs|reflexivity].
+    - exists Ld. split; [exact ELd|reflexivity]. }
+  destruct ELd0 as (Ld0 & ELd0 & Eg0).
+  exists Ls, i_s, Ld0, i_d.
+  split; [exact ELs|]. split; [exact Eis|]. split; [exact ELd0|].
+  split; [rewrite (lw_index_geom' Ld0 Ld dw Eg0); exact Eid|].
+  split; [exact His|]. split; [rewrite Eg0; exact Hid|]. split; [exact Hle|].
+  split; [rewrite Es', !upd_len; reflexivity|].
+  intros k i. rewrite !abs_state_list, Es'.
+  eapply iw_eq_trans; [apply abs_upd_add; assumption|].
+  unfold is_transfer. cbv zeta.
+  assert (H1 : forall k i, iw_eq (abs_list (upd (st_lw s) ks (log (rem_step Ls i_s v) None)) k i)
+                 (is_upd (abs_list (st_lw s)) ks i_s (iw_remove (abs_list (st_lw s) ks i_s) v) k i)).
+  { intros k' i'. eapply iw_eq_trans; [apply abs_upd_rem; [exact ELs|lia]|].
+    apply is_upd_congr; [intros; apply iw_eq_refl|].
+    unfold abs_list. rewrite ELs. split; cbn [iw_remove abs_well iw_vol iw_amt]; [reflexivity|].
+    intro c. field. lra. }
+  apply is_upd_congr; [exact H1|]. apply iw_add_congr; [apply H1|].
+  intro c. unfold abs_list. rewrite ELs. unfold iw_frac. cbn [abs_well iw_vol iw_amt].
+  rewrite wca_get_pfrac by apply HLs.
+  rewrite pfrac_nonneg by apply (comp_inv_frac Ls c i_s HCI). field. lra.
+Qed.
+
+(** a step of volume zero changes nothing in the ideal view *)
+Lemma exec_step_refines_zero s ks kd sw dw v ws kw s' : st_inv s -> v == 0 ->
+  exec_step s ks kd sw dw v ws kw = (s', None) ->
+  forall k i, iw_eq (abs_state s' k i) (abs_state s k i).
+Proof.
+  intros HI Hv H.
+  destruct (exec_step_ok _ _ _ _ _ _ _ _ _ H) as (Ls & i_s & Ld & i_d & ELs & Eis & Hv0 & Hmin & ELd & Eid & Es').
+  pose proof (st_inv_nth s ks Ls HI ELs) as HLs.
+  assert (His : (i_s < n_wells (lw_geom Ls))%nat) by (apply (lw_index_lt Ls sw); [apply HLs|exact Eis]).
+  assert (HLs' : mix_inv (log (rem_step Ls i_s v) None)).
+  { apply log_inv. apply rem_step_inv; assumption. }
+  assert (HLd : mix_inv Ld).
+  { assert (HF : Forall mix_inv (upd (st_lw s) ks (log (rem_step Ls i_s v) None)))
+      by (apply Forall_upd'; assumption).
+    rewrite Forall_forall in HF. apply HF. eapply nth_error_In. exact ELd. }
+  assert (Hid : (i_d < n_wells (lw_geom Ld))%nat) by (apply (lw_index_lt Ld dw); [apply HLd|exact Eid]).
+  pose proof (wca_comp_ok Ls i_s HLs) as [(NC & _) _].
+  pose proof HLs as [(_ & Hlen & _) _].
+  assert (H1 : forall k i, iw_eq (abs_list (upd (st_lw s) ks (log (rem_step Ls i_s v) None)) k i)
+                              (abs_list (st_lw s) k i)).
+  { intros k i. eapply iw_eq_trans; [apply abs_upd_rem; [exact ELs|lia]|].
+    apply is_upd_same. unfold abs_list. rewrite ELs. split; cbn [abs_well iw_vol iw_amt].
+    - lra.
+    - intro c. assert (E : vol_at Ls i_s - v == vol_at Ls i_s) by lra. rewrite E. reflexivity. }
+  intros k i. rewrite !abs_state_list, Es'.
+  eapply iw_eq_trans; [apply abs_upd_add; assumption|].
+  eapply iw_eq_trans; [|apply H1]. apply is_upd_same.
+  split; cbn [iw_add iw_vol iw_amt]; [lra|]. intro c.
+  assert (E : v * cget c (wca (lw_comp Ls) i_s) == 0) by (rewrite Hv; ring). rewrite E. ring.
 Qed.
